@@ -1,3 +1,4 @@
+import RPVerif.Model.Launch
 /-
 Model of the agent-side resource managers (C18):
   agent/resource_manager/base.py  _parse_nodefile, _get_cores_per_node,
@@ -81,11 +82,22 @@ structure Cfg where
   blockedGpus  : List Nat
   agentNodes   : Nat    -- number of sub-agents with target 'node'
   serviceNodes : Nat    -- 1 iff ./services exists
+  /-- PBSPro: the `exec_vnode` attribute `qstat -f` reports, as chunks of (vnode id, ncpus) slices;
+      `none`: qstat is not available -/
+  execVnode    : Option (List (List (Nat × Nat))) := none
 deriving Repr
 
 inductive Kind where
   | torque | ccm | cobalt | lsf | pbspro | slurm | fork
 deriving DecidableEq, Repr
+
+/-- `PBSPro._parse_pbspro_vnodes` on the parsed attribute: `sorted(set(vnode names))` and the common
+    `ncpus` (RuntimeError when the slices differ in size) -/
+def pbsVnodes (chunks : List (List (Nat × Nat))) : Except Err (List Nat × Nat) :=
+  match Launch.hostSet (chunks.flatten.map (·.2)) with
+  | [n] => .ok (Launch.hostSet (chunks.flatten.map (·.1)), n)
+  | []  => .error .value
+  | _   => .error .runtime
 
 /-- result of the RM specific `init_from_scratch`: node list and cores_per_node -/
 def initKind (k : Kind) (c : Cfg) (ls : List Line) (hosts : List Name) (envCpus : Option Nat)
@@ -99,9 +111,16 @@ def initKind (k : Kind) (c : Cfg) (ls : List Line) (hosts : List Name) (envCpus 
   | .cobalt =>
     if c.cpn = 0 then .error .runtime
     else .ok (getNodeList (parseNodefile ls c.cpn 1) c.gpn, c.cpn)
-  | .pbspro =>          -- qstat not available: node file fallback
-    if c.cpn = 0 then .error .runtime
-    else .ok (getNodeList (parseNodefile ls c.cpn 1) c.gpn, c.cpn)
+  | .pbspro =>
+    match c.execVnode with
+    | some chunks =>
+      -- one node per vnode of the allocation; `cores_per_node` is what PBS reports
+      match pbsVnodes chunks with
+      | .error e     => .error e
+      | .ok (vn, n)  => .ok (getNodeList (vn.map (fun i => ({ id := i }, n))) c.gpn, n)
+    | none =>           -- qstat not available: node file fallback
+      if c.cpn = 0 then .error .runtime
+      else .ok (getNodeList (parseNodefile ls c.cpn 1) c.gpn, c.cpn)
   | .lsf =>
     match coresPerNode ((parseNodefile ls 0 c.smt).filter
             (fun e => !e.1.login && !e.1.batch && e.2 ≠ c.smt)) with
